@@ -22,7 +22,17 @@ THEOREMS = ['coord_bij', 'groups_by_coordinates', 'stage_agrees', 'stage_balance
 NOTES = 'new_group_same_order is proved for the repaired constructor (fix D5); the pre-repair trace is refuted for P=D=M=2.'
 
 
+# layer totals for which two (three) workers reach EQUAL loads through different layers: the next layer goes to the lowest rank -
+# exactly (found by search: greedy on totals / sum(totals) in binary64 deviates from exact greedy on each of them)
+SUBSET_TIES = [(5, 3, 2, 2), (9, 7, 2, 2), (9, 5, 4, 4), (9, 6, 3, 2), (8, 7, 3, 2, 2), (7, 6, 5, 4, 3), (4, 3, 2, 1, 1), (7, 5, 5, 3, 3),
+               (7, 6, 6, 5, 5), (7, 6, 6, 5, 1), (9, 5, 4, 3, 2), (7, 5, 1, 1, 1), (8, 7, 4, 3, 2), (9, 7, 4, 3, 1), (9, 9, 7, 2, 1),
+               (9, 9, 5, 4, 1), (7, 7, 4, 3, 3), (9, 9, 6, 3, 1), (9, 9, 8, 1, 1), (9, 9, 5, 4, 4), (9, 8, 8, 1, 1, 1), (9, 5, 4, 3, 2, 1)]
+
+
 def make_work(fam, nl, rng):
+    tie_list = rng.choice(SUBSET_TIES) if fam == 'subset_ties' else None
+    if tie_list:
+        nl = len(tie_list)
     names = rng.sample(['layer.10', 'layer.9', 'layer.2', 'a', 'B', 'b', 'attn.dense', 'mlp.0', 'mlp.1', 'z', 'layer.1', 'Z9', 'x.y'], min(nl, 13))
     work = {}
     for i, nm in enumerate(names):
@@ -36,6 +46,12 @@ def make_work(fam, nl, rng):
             c = (0, rng.choice([0, 1]))
         elif fam == 'decr':
             c = (100 - i, 50)
+        elif fam == 'subset_ties':
+            # small totals of which different subsets have EQUAL sums (5 = 3 + 2): two workers reach the same load through different
+            # layers, and the next layer must go to the lower rank - exactly, not up to rounding
+            tot = tie_list[i]
+            a_ = rng.randint(0, tot)
+            c = (a_, tot - a_)
         else:
             c = (rng.randint(0, 30), rng.randint(0, 30))
         work[nm] = {'A': c[0], 'G': c[1]}
@@ -127,7 +143,7 @@ def run(tier, seed, rng):
                    'string order differs from numeric order; non-trivial = D > 1 and M > 1, or ties; distinct by hash')
     failures: list[Failure] = []
     bound = 24 if tier == 'quick' else 64
-    fams = ['ties', 'uniform', 'cubes', 'zeros', 'decr', 'random']
+    fams = ['ties', 'uniform', 'cubes', 'zeros', 'decr', 'random', 'subset_ties', 'subset_ties']
     topos = [(P, D, M) for P in range(1, bound + 1) for D in range(1, bound + 1) for M in range(1, bound + 1) if P * D * M <= bound]
     cov.exhaustive = True
     runs = []
